@@ -15,6 +15,10 @@ read                                    -> ok <image-list>            (noiseless
 readrng <δ-list> <z-list>               noisy read-out with the random draws given (`pReadOutRng`): δ = Poisson draw − expectation,
                                         z = standard-normal deviates of the read noise
                                         -> ok <image-list> <lam-list|->   (lam = what the photon-noise stage is handed; `-` when it is off)
+imgs                                    -> ok <list;list;…|->   `images` of all observations so far: the images returned, in order
+                                        (read-outs with photon / read noise on are not images)
+twin                                    noisy kinds: -> ok <list;…|->  the images a noiseless detector returns on the history with the
+                                        setters removed (`reads g {} (strip history)`)
 tint input|foreign|plain                the grid label of the power handed to integrate (`tStep`)   -> ok
 tread                                   -> ok detector|input|foreign   (label of the image read out)
 
@@ -40,6 +44,10 @@ structure St where
   pst : PSt Rat := { flat := [], dark := [], sigma := [] }
   rst : RSt Rat := {}
   tst : TSt := {}
+  /-- every observation of the history so far (`run` / `pRun` collect exactly this list) -/
+  obs : List (Obs Rat) := []
+  /-- the history of a noisy detector so far, setters included -/
+  pops : List (POp Rat) := []
 
 /-- `<s>`: one factor for every axis, or a list of per-axis factors (same order and length as `dims`, none zero) -/
 def parseGeom? (s dims : String) : Option Geom :=
@@ -62,13 +70,13 @@ def showObs : Obs Rat → String
 
 def apply (st : St) (op : Op Rat) : St × String :=
   match st.kind with
-  | .noiseless => let r := Detector.step st.geom st.st op; ({ st with st := r.1 }, showObs r.2)
+  | .noiseless => let r := Detector.step st.geom st.st op; ({ st with st := r.1, obs := st.obs ++ [r.2] }, showObs r.2)
   | .noisy =>
     let r := Detector.pStep st.geom st.pst (lift op)
     let flag := match op with
       | .readOut => if st.pst.off st.geom then " off" else " on"
       | _ => ""
-    ({ st with pst := r.1 }, showObs r.2 ++ flag)
+    ({ st with pst := r.1, obs := st.obs ++ [r.2], pops := st.pops ++ [lift op] }, showObs r.2 ++ flag)
 
 def step (st : St) : List String → St × String
   | ["reset"] => ({}, "ok")
@@ -96,7 +104,7 @@ def step (st : St) : List String → St × String
     | some d, some z =>
       if d.length ≠ st.geom.npix || z.length ≠ st.geom.npix then (st, "bad-op") else
       let r := pReadOutRng st.geom st.pst d z
-      ({ st with pst := r.1 }, "ok " ++ showRatList r.2 ++ " " ++
+      ({ st with pst := r.1, pops := st.pops ++ [.readOut] }, "ok " ++ showRatList r.2 ++ " " ++
         (if st.pst.photon then showRatList (st.pst.lam st.geom) else "-"))
     | _, _ => (st, "bad-op")
   | ["int", p, dt, w] =>
@@ -104,6 +112,10 @@ def step (st : St) : List String → St × String
     | some p, some dt, some w => apply st (.integrate p dt w)
     | _, _, _ => (st, "bad-op")
   | ["read"] => apply st .readOut
+  | ["imgs"] => (st, "ok " ++ showRatLists (images st.obs))
+  | ["twin"] =>
+    if st.kind != .noisy then (st, "bad-op") else
+    (st, "ok " ++ showRatLists (images (reads st.geom ({} : Detector.St Rat) (strip st.pops))))
   | ["tint", p] =>
     let p? : Option PTag := match p with
       | "input" => some .onInput
@@ -157,8 +169,8 @@ def step (st : St) : List String → St × String
   | ["set", "photon", b] =>
     if st.kind != .noisy then (st, "bad-op") else
     match b with
-    | "0" => ({ st with pst := (Detector.pStep st.geom st.pst (.setPhoton false)).1 }, "ok")
-    | "1" => ({ st with pst := (Detector.pStep st.geom st.pst (.setPhoton true)).1 }, "ok")
+    | "0" => ({ st with pst := (Detector.pStep st.geom st.pst (.setPhoton false)).1, pops := st.pops ++ [.setPhoton false] }, "ok")
+    | "1" => ({ st with pst := (Detector.pStep st.geom st.pst (.setPhoton true)).1, pops := st.pops ++ [.setPhoton true] }, "ok")
     | _ => (st, "bad-op")
   | ["set", what, l] =>
     if st.kind != .noisy then (st, "bad-op") else
@@ -166,9 +178,9 @@ def step (st : St) : List String → St × String
     | some l =>
       if l.length ≠ st.geom.npix then (st, "bad-op") else
       match what with
-      | "flat" => ({ st with pst := (Detector.pStep st.geom st.pst (.setFlat l)).1 }, "ok")
-      | "dark" => ({ st with pst := (Detector.pStep st.geom st.pst (.setDark l)).1 }, "ok")
-      | "sigma" => ({ st with pst := (Detector.pStep st.geom st.pst (.setSigma l)).1 }, "ok")
+      | "flat" => ({ st with pst := (Detector.pStep st.geom st.pst (.setFlat l)).1, pops := st.pops ++ [.setFlat l] }, "ok")
+      | "dark" => ({ st with pst := (Detector.pStep st.geom st.pst (.setDark l)).1, pops := st.pops ++ [.setDark l] }, "ok")
+      | "sigma" => ({ st with pst := (Detector.pStep st.geom st.pst (.setSigma l)).1, pops := st.pops ++ [.setSigma l] }, "ok")
       | _ => (st, "bad-op")
     | none => (st, "bad-op")
   | _ => (st, "bad-op")
